@@ -59,9 +59,10 @@ ExpandArith(h) ==
                   \cup (IF Backend = "sqlite" THEN { <<1, Un("neg", HI)>> } ELSE {})
 ExpandStrings(h) ==
   CASE h = "B" -> { <<0, C2(f, HS, p)>> : f \in {"contains", "startswith", "endswith"},
-                                          p \in {SL(<<97>>), SL(<<37>>), SL(<<95>>), SL(<<Q>>), SL(<<92>>), SL(<<>>), SL(<<97, 37>>)} }
+                                          p \in {SL(<<97>>), SL(<<37>>), SL(<<95>>), SL(<<Q>>), SL(<<92>>), SL(<<>>), SL(<<97, 37>>), SL(<<92, 37>>), SL(<<97, 92, 95>>)} }
                   \cup { <<0, C2(f, HS, uC)>> : f \in {"contains", "startswith", "endswith"} }
-                  \cup { <<0, Cmp(o, HS, p)>> : o \in {"eq", "lt", "ge"}, p \in {SL(<<97, 98>>), SL(<<65, 66>>), SL(<<97, 37, 98>>), SL(<<97, 32, 98>>), SL(<<97, 32, 32, 98>>), uC} }
+                  \cup { <<0, Cmp(o, HS, p)>> : o \in {"eq", "lt", "ge"}, p \in {SL(<<97, 98>>), SL(<<65, 66>>), SL(<<97, 37, 98>>), SL(<<97, 32, 98>>), SL(<<97, 32, 32, 98>>), uC,
+                                                                                SL(<<97, 37, 50, 48, 98>>), SL(<<37, 54, 49>>)} }     \* 'a%20b' and '%61': not URL-encoded text
                   \cup { <<0, Cmp(o, C1("length", HS), IntL(k))>> : o \in {"eq", "gt"}, k \in {0, 2} }
                   \cup { <<0, Cmp(o, C2("indexof", HS, p), IntL(k))>> : o \in {"eq", "lt"}, k \in {0, 1}, p \in {SL(<<98>>), SL(<<37>>), uC} }
                   \cup { <<0, Cmp("in", HS, Lst(<<SL(<<97>>), SL(<<111, Q, 114>>), SL(<<37>>)>>))>> }
